@@ -68,6 +68,10 @@ CHECKS.update({
    text="Same specification with the fault actions: a failed Send after n messages (which breaks the stream for the receiver too), a receive error, a clean end of stream, and a burst of Q calls while Send is stuck and then fails; after each the specification requires the recorded errors, the AwaitConverged verdict 'err', every Q call to return, Close/Reset to return with no client goroutine left (goroutine census) and a fresh client after Reset+Connect. A call that does not return within the watchdog is reported with the blocked frames.",
    note="stub stream (no real transport); goroutines are counted by stack census of the client package"),
 })
+CHECKS["C19"] = dict(ref="DESIGN.md 5/C19", engine="GribiServer",
+   text="The unmodified compliance suite runs against one long-lived reference server per forward-reference mode (bufconn) in permuted orders and with different starting election ids: every test must meet its expected verdict whatever ran before it, and the complete wire trace of the run (every ModifyRequest/Response, Get, Flush, with the server's RIB and session state) is validated by TLC against GribiServer - so the suite's verdicts are tied to a server the specification accepts. A catalogue of wrappers that break exactly one protocol requirement (no FIB ack, Get withholds an entry, Flush ignored, election response echoes the request, repeated session parameters accepted) is run against the tests written for that requirement (spec/compliance_map.json): each must fail, and TLC must reject the wrapper's wire trace at that requirement.",
+   note="permutations are sampled; tests with two simultaneously active clients are excluded from message-grain trace validation",
+   tech="explicit TLA+ spec (TLC) as wire-trace oracle for compliance-suite runs in permuted orders; fault-injection wrappers with pinned expected failures")
 CHECKS["C08"]["text"] = CHECKS["C08"]["text"].replace("The election gate of the Flush RPC is decided by the server-level specification (see DESIGN).", "Server part (FlushGate): the complete decision table of network-instance and election fields against the learnt election id is part of GribiServer.FlushVerdict; every Flush RPC's status/reason and effect are compared on the real server.")
 CHECKS["C08"]["note"] = "trusted: TLC, hooks; bounded constants"
 CHECKS["C08"]["engine"] = "GribiRIB+GribiServer"
@@ -113,7 +117,7 @@ def main():
             {"name": "GribiReconcile", "path": "/verif/spec/GribiReconcile.tla", "serves_properties": ["C15"], "kind_free_text": "plan specification + GribiReconcile_MC + GribiReconcileTrace; vh recon-run"},
             {"name": "GribiChk", "path": "/verif/spec/GribiChk.tla", "serves_properties": ["C17"], "kind_free_text": "verdict specification + GribiChk_MC (case enumeration) + GribiChkTrace; vh chk-run"},
             {"name": "GribiFluent", "path": "/verif/spec/GribiFluent.tla", "serves_properties": ["C18"], "kind_free_text": "builder/queue specification + GribiFluent_MC (program generation) + GribiFluentTrace; vh fluent-run"},
-            {"name": "GribiServer", "path": "/verif/spec/GribiServer.tla", "serves_properties": ["C04", "C05", "C06", "C07", "C08", "C09", "C10", "C12"],
+            {"name": "GribiServer", "path": "/verif/spec/GribiServer.tla", "serves_properties": ["C04", "C05", "C06", "C07", "C08", "C09", "C10", "C12", "C19"],
              "kind_free_text": "TLA+ spec of server/server.go at message grain on top of GribiRIB; GribiServer_MC, GribiServerTrace; Go harness (vh srv-run) driving server.Server through in-process streams"},
         ],
         "checks": checks,
